@@ -83,6 +83,16 @@ func r7constX(c *core.Ctx) {
 		ex.Enter = keepExcept("mulxPow")
 		outs, err := ex.Run(fn, core.DefaultArgs(fn), nil)
 		if err != nil || len(outs) != 1 || len(outs[0].Ret) != 1 || outs[0].Ret[0].K != core.AInt {
+			if bad, decided := byPartition(fn, 256, nil, func(a []uint64) uint64 {
+				var w uint64
+				for k := 0; k < 4; k++ {
+					w = w<<8 | specMulxPow(a[0], t.exps[k], 0xa9)
+				}
+				return w
+			}); decided {
+				c.Check(bad == "", R, "snow3g."+t.name, fn.Pos(), "MULxPOW in bytes 3..0 (each of the 256 arguments folded)", "%s must be MULxPOW(c,%v,0xA9) in bytes 3..0: %s", t.name, t.exps, bad)
+				continue
+			}
 			c.SoftUndecided("R7.const: %s could not be evaluated to one value (%v, %d outcomes)", t.name, err, len(outs))
 			continue
 		}
@@ -97,6 +107,19 @@ func r7constX(c *core.Ctx) {
 				ok = false
 			}
 		}
+		if !ok {
+			// not spelled through mulxPow (a table, a loop): the function has 256 arguments; each is folded
+			if bad, decided := byPartition(fn, 256, nil, func(a []uint64) uint64 {
+				var w uint64
+				for k := 0; k < 4; k++ {
+					w = w<<8 | specMulxPow(a[0], t.exps[k], 0xa9)
+				}
+				return w
+			}); decided {
+				c.Check(bad == "", R, "snow3g."+t.name, fn.Pos(), strings.Join(want, " ")+" (each of the 256 arguments folded)", "%s must be MULxPOW(c,%v,0xA9) in bytes 3..0: %s", t.name, t.exps, bad)
+				continue
+			}
+		}
 		c.Check(ok, R, "snow3g."+t.name, fn.Pos(), strings.Join(want, " "), "%s must be MULxPOW(c,%v,0xA9) in bytes 3..0, is %s", t.name, t.exps, b.Describe())
 	}
 	for _, t := range []struct {
@@ -104,6 +127,9 @@ func r7constX(c *core.Ctx) {
 		poly      int64
 	}{{"s1", "sr", 0x1b}, {"s2", "sq", 0x69}} {
 		fn := mustFunc(c, pSnow, t.name)
+		if r7mixColumnBits(c, R, fn, t.name, t.box, uint64(t.poly)) {
+			continue
+		}
 		ex := core.NewExec()
 		ex.Enter = keepExcept("mulx")
 		outs, err := ex.Run(fn, core.DefaultArgs(fn), nil)
@@ -143,6 +169,56 @@ func r7constX(c *core.Ctx) {
 		c.Check(ok, R, "snow3g."+t.name, fn.Pos(), "MixColumn of the S-box outputs: r0=2·a0+a1+a2+3·a3, r1=3·a0+2·a1+a2+a3, r2=a0+3·a1+2·a2+a3, r3=a0+a1+3·a2+2·a3",
 			"%s: %s", t.name, detail)
 	}
+}
+
+// r7mixColumnBits: S1/S2 with MULx entered: every result bit is an XOR of S-box output bits, and
+// which ones follows from the MixColumn matrix and the reduction constant (2·a has bit i =
+// a.(i-1) xor a.7 where the constant has bit i). Whatever spelling of MULx and whatever grouping of
+// the sums (mulx(a^b) for mulx(a)^mulx(b)) gives the same sets. Reports true when it decided (ok).
+func r7mixColumnBits(c *core.Ctx, R string, fn *ssa.Function, name, box string, poly uint64) bool {
+	ex := core.NewExec()
+	ex.Merge = true
+	outs, err := ex.Run(fn, core.DefaultArgs(fn), nil)
+	if err != nil || len(outs) != 1 || len(outs[0].Ret) != 1 || outs[0].Ret[0].K != core.AInt || len(outs[0].Ret[0].Bits) != 32 {
+		return false
+	}
+	b := outs[0].Ret[0].Bits
+	names := map[string]string{}
+	for k, idx := range []string{"p0<31:24>", "p0<23:16>", "p0<15:8>", "p0<7:0>"} {
+		names["global:"+pSnow+"."+box+"["+idx+"]"] = fmt.Sprintf("S%d", k)
+	}
+	coef := [4][4]int{{2, 1, 1, 3}, {3, 2, 1, 1}, {1, 3, 2, 1}, {1, 1, 3, 2}}
+	for k := 0; k < 4; k++ {
+		hi := 31 - 8*k
+		for i := 0; i < 8; i++ {
+			w := map[string]bool{}
+			flip := func(t string) {
+				if w[t] {
+					delete(w, t)
+				} else {
+					w[t] = true
+				}
+			}
+			for j := 0; j < 4; j++ {
+				if coef[k][j]&1 != 0 {
+					flip(fmt.Sprintf("S%d.%d", j, i))
+				}
+				if coef[k][j]&2 != 0 {
+					if i >= 1 {
+						flip(fmt.Sprintf("S%d.%d", j, i-1))
+					}
+					if poly>>uint(i)&1 != 0 {
+						flip(fmt.Sprintf("S%d.7", j))
+					}
+				}
+			}
+			if good, _ := xorTermsOK(b[hi-7+i], names, w); !good {
+				return false
+			}
+		}
+	}
+	c.Ok(R, "snow3g."+name, fn.Pos(), "MixColumn of the S-box outputs: r0=2·a0+a1+a2+3·a3, r1=3·a0+2·a1+a2+a3, r2=a0+3·a1+2·a2+a3, r3=a0+a1+3·a2+2·a3 (bit by bit, MULx entered)")
+	return true
 }
 
 // ---------------------------------------------------------------- LFSR modes and FSM
@@ -782,6 +858,12 @@ func r7mulx(c *core.Ctx, R, pkg, key string, w int) {
 	ex.Merge = true
 	outs, err := ex.Run(fn, core.DefaultArgs(fn), nil)
 	if err != nil || len(outs) != 1 || len(outs[0].Ret) != 1 || outs[0].Ret[0].K != core.AInt || len(outs[0].Ret[0].Bits) != w {
+		if w == 8 {
+			if bad, decided := mulx8ByPartition(fn); decided {
+				c.Check(bad == "", R, key, fn.Pos(), "V bit 7 ? (V<<1)^c : V<<1 (each V folded for the three reduction constants in use)", "MULx must be (V<<1)^c when the top bit of V is set and V<<1 otherwise: %s", bad)
+				return
+			}
+		}
 		c.SoftUndecided("%s: %s.mulx could not be evaluated to one value (%v, %d outcomes)", R, shortName(pkg), err, len(outs))
 		return
 	}
@@ -799,7 +881,79 @@ func r7mulx(c *core.Ctx, R, pkg, key string, w int) {
 			detail = fmt.Sprintf("bit %d is %v", j, got)
 		}
 	}
+	if !ok && w == 8 {
+		if bad, decided := mulx8ByPartition(fn); decided {
+			c.Check(bad == "", R, key, fn.Pos(), "V bit 7 ? (V<<1)^c : V<<1 (each V folded for the three reduction constants in use)", "MULx must be (V<<1)^c when the top bit of V is set and V<<1 otherwise: %s", bad)
+			return
+		}
+	}
 	c.Check(ok, R, key, fn.Pos(), fmt.Sprintf("V bit %d ? (V<<1)^c : V<<1", w-1), "MULx must be (V<<1)^c when the top bit of V is set and V<<1 otherwise (%s)", detail)
+}
+
+func specMulx(v, c uint64) uint64 {
+	if v&0x80 != 0 {
+		return ((v << 1) ^ c) & 0xff
+	}
+	return (v << 1) & 0xff
+}
+
+func specMulxPow(v uint64, e int64, c uint64) uint64 {
+	for ; e > 0; e-- {
+		v = specMulx(v, c)
+	}
+	return v
+}
+
+// foldCall interprets fn on constant arguments; ok when it has one outcome that returns one constant.
+func foldCall(fn *ssa.Function, consts []uint64) (uint64, bool) {
+	ex := core.NewExec()
+	ex.MaxRecursion, ex.MaxDepth = 300, 320
+	var args []core.AVal
+	for i, p := range fn.Params {
+		bt, isB := p.Type().Underlying().(*types.Basic)
+		if !isB || i >= len(consts) {
+			return 0, false
+		}
+		w := widthOfBasic(bt)
+		if w <= 0 {
+			return 0, false
+		}
+		args = append(args, core.AVal{K: core.AInt, Bits: core.ConstBits(consts[i], w)})
+	}
+	outs, err := ex.Run(fn, args, nil)
+	if err != nil || len(outs) != 1 || outs[0].Panicked || len(outs[0].Ret) != 1 || len(ex.Unsound) > 0 {
+		return 0, false
+	}
+	k, isK := outs[0].Ret[0].ConstVal()
+	return uint64(k), isK
+}
+
+// byPartition decides a function of one small argument (first parameter, n values; the other
+// parameters fixed to rest) by folding it for every value and comparing with want. decided is
+// false when some value does not fold to a constant (the function is then not of a kind this can
+// judge); bad names the first disagreeing argument.
+func byPartition(fn *ssa.Function, n int, rest []uint64, want func(args []uint64) uint64) (bad string, decided bool) {
+	for v := 0; v < n; v++ {
+		args := append([]uint64{uint64(v)}, rest...)
+		got, ok := foldCall(fn, args)
+		if !ok {
+			return "", false
+		}
+		if w := want(args); got != w && bad == "" {
+			bad = fmt.Sprintf("%s(%v) is %#x, want %#x", fn.Name(), args, got, w)
+		}
+	}
+	return bad, true
+}
+
+func mulx8ByPartition(fn *ssa.Function) (string, bool) {
+	for _, c := range []uint64{0x1b, 0x69, 0xa9} {
+		bad, decided := byPartition(fn, 256, []uint64{c}, func(a []uint64) uint64 { return specMulx(a[0], a[1]) })
+		if !decided || bad != "" {
+			return bad, decided
+		}
+	}
+	return "", true
 }
 
 // r7mulxPowAt decides MULxPOW(V,e,c) = MULx applied e times, for the exponents that are used.
@@ -815,6 +969,12 @@ func r7mulxPowAt(c *core.Ctx, R, pkg, key string, w int, exps []int) {
 		args[1] = core.AVal{K: core.AInt, Bits: core.ConstBits(uint64(e), w)}
 		outs, err := ex.Run(fn, args, nil)
 		if err != nil || len(outs) != 1 || len(outs[0].Ret) != 1 || outs[0].Ret[0].K != core.AInt {
+			if w == 8 {
+				if bad, decided := mulxPow8ByPartition(fn, exps); decided {
+					c.Check(bad == "", R, key, fn.Pos(), fmt.Sprintf("MULxPOW(V,i,0xA9) = MULx applied i times, for the %d exponents in use (each V folded)", len(exps)), "MULxPOW must be the i-fold application of MULx: %s", bad)
+					return
+				}
+			}
 			c.SoftUndecided("%s: %s.mulxPow(V,%d,c) could not be evaluated to one value (%v, %d outcomes)", R, shortName(pkg), e, err, len(outs))
 			return
 		}
@@ -826,7 +986,23 @@ func r7mulxPowAt(c *core.Ctx, R, pkg, key string, w int, exps []int) {
 			detail = fmt.Sprintf("MULxPOW(V,%d,c) is %s", e, got)
 		}
 	}
+	if !ok && w == 8 {
+		if bad, decided := mulxPow8ByPartition(fn, exps); decided {
+			c.Check(bad == "", R, key, fn.Pos(), fmt.Sprintf("MULxPOW(V,i,0xA9) = MULx applied i times, for the %d exponents in use (each V folded)", len(exps)), "MULxPOW must be the i-fold application of MULx: %s", bad)
+			return
+		}
+	}
 	c.Check(ok, R, key, fn.Pos(), fmt.Sprintf("MULxPOW(V,i,c) = MULx applied i times, for the %d exponents in use", len(exps)), "MULxPOW must be the i-fold application of MULx (%s)", detail)
+}
+
+func mulxPow8ByPartition(fn *ssa.Function, exps []int) (string, bool) {
+	for _, e := range exps {
+		bad, decided := byPartition(fn, 256, []uint64{uint64(e), 0xa9}, func(a []uint64) uint64 { return specMulxPow(a[0], int64(a[1]), a[2]) })
+		if !decided || bad != "" {
+			return bad, decided
+		}
+	}
+	return "", true
 }
 
 // r7mul64 decides MUL(V,P,c) over GF(2^64): bit j of the result is the XOR over i = 0..63 of
